@@ -633,7 +633,12 @@ def main(modname: str, argv: list[str]) -> int:
     # finding).  Shrink each in a child process (memory limit, watchdog).
     items = sorted(total.buckets.items())
     if items and not a.no_shrink:
-        sjobs = [("shrink", (modname, info["part"], tier, key, info, factive)) for key, info in items[:12]]
+        # hangs, deadlocks and dead workers are not shrunk: every attempt would wait for a watchdog again
+        def _slow(info):
+            b = str(info.get("bucket", ""))
+            return b in ("hang", "deadlock", "worker-died") or "deadlock" in b or b.startswith("exc:Hang")
+
+        sjobs = [("shrink", (modname, info["part"], tier, key, info, factive)) for key, info in items[:12] if not _slow(info)]
         shrunk = [r for r in run_jobs(sjobs, nshards) if isinstance(r, dict)]
         by_key = {(r["part"], r["bucket"]): r for r in shrunk}
         items = [(key, by_key.get((info["part"], info["bucket"]), info)) for key, info in items]
